@@ -466,7 +466,8 @@ def run(chk: common.Check) -> None:
     for sh in res:
         for i, lines, msgs, reached, err in sh:
             if err:
-                raise RuntimeError(f'harness failure in case {cases[i]}: {err}')
+                rows.append((cases[i][1:], lines or ['threads -'], [f'the scenario did not complete: {err[:300]}'], reached))
+                continue
             rows.append((cases[i][1:], lines, msgs, reached))
     trows = []
     for sh in tres:
@@ -500,7 +501,7 @@ def run(chk: common.Check) -> None:
     for sh in xres:
         for off, variant, msgs, reached, err in sh:
             if err:
-                raise RuntimeError(f'harness failure in cross-thread task case {(off, variant)}: {err}')
+                msgs = [f'the scenario did not complete: {err[:300]}']
             chk.cov.case(repr(('task-callback', off, variant)), trivial=not reached)
             nreached += 1 if reached else 0
             chk.cov.count('where', 'task-callback')
